@@ -164,6 +164,9 @@ func SolveAll(dir string, reps []*FuncReport, timeoutS int, all bool) {
 			defer wg.Done()
 			for j := range ch {
 				o := j.o
+				if o.Result != "" {
+					continue // decided without a solver (e.g. a clause that cannot be stated on the current source)
+				}
 				if o.Goal == "true" {
 					o.Result, o.Solver = "unsat", "syntactic"
 					continue
